@@ -37,6 +37,15 @@ class C03(DevProp):
             "directly, through channel offsets, or through a transposition between presses - in each of the 4 modes, mixed with a key on another "
             "pitch; random longer histories biased to shared pitches; non-trivial = distinct cases in which some press found the pitch already held")
 
+    def perturb(self, case, res):
+        # falsify: duplicate the first Note On
+        for st in res["steps"]:
+            for m in st["midi"]:
+                if m[0] & 0xF0 == 0x90 and len(st["midi"]) < 100:
+                    st["midi"].append(list(m))
+                    return res
+        return None
+
     def gen(self, rng, tier):
         cases = []
         codes = [30, 31, 32, 33]
@@ -74,6 +83,18 @@ class C03(DevProp):
                             if len(ev) % 5 == 0:
                                 ev += [k(40, 1), k(40, 0)]
                         cases.append({"cfg": cfg, "abs": [], "events": ev, "tag": "episode-%d-%s" % (n, variant)})
+        for cmode in devgen.CMODES:
+            for n_up in (6, 11):
+                midi = [{"sub": "", "code": c, "note": 60, "off": 0} for c in codes[:3]]
+                cfg = {"mappings": [{"name": "M0", "midi": midi, "analog": [], "dz": [], "defdz": [], "subs": []}],
+                       "actions": [{"code": 59, "action": "octave_up"}, {"code": 60, "action": "octave_down"}],
+                       "exitseq": [], "cmode": cmode, "octave": 0, "semitone": 0, "channel": 1, "mapping": 0, "velocity": 64}
+                A, B, C = codes[:3]
+                up = [k(59, 1), k(59, 0)] * n_up
+                down = [k(60, 1), k(60, 0)] * n_up
+                for tail in ([k(B, 0), k(C, 1), k(C, 0)], [k(C, 1), k(B, 0), k(C, 0)], [k(B, 0)]):
+                    ev = [k(A, 1), k(B, 1), k(A, 0)] + up + [k(A, 1), k(A, 0)] + down + tail + [k(C, 1), k(C, 0), k(A, 1), k(A, 0)]
+                    cases.append({"cfg": cfg, "abs": [], "events": ev, "tag": "out-of-range-repress"})
         for i in range(200 if tier == "quick" else 6000):
             cfg = devgen.gen_config(rng, with_exit=False, share=True)
             h = devgen.gen_history(rng, cfg, rng.randint(20, 70), p_action=0.2, max_down=6)
